@@ -160,6 +160,8 @@ class Melody:
 
 
     def set_duration(self, duration):
+        if duration == 0:
+            return self.augment(0)
         return self.augment(duration / self.duration)
 
     def to_drum(self):
